@@ -1,6 +1,28 @@
     // Executable form of C12 on the REAL renderers, bounded corpus.
     fn to_model(src: &str) -> Result<Model, String> { RoocParser::new(src.to_string()).parse_and_transform(vec![], &IndexMap::new()) }
     fn to_linear(src: &str) -> Result<LinearModel, String> { Linearizer::linearize(to_model(src)?).map_err(|e| e.to_string()) }
+    // Rendered text of everything except the declarations, and the declared kinds/bounds per variable.  Re-compiling a rendered
+    // model runs bound inference again on already simplified rows, which may TIGHTEN a derived range further (both ranges are
+    // sound); domains are therefore compared by kind, and the recompiled range must lie inside the original one.
+    fn split(lm: &LinearModel) -> (String, Vec<(String, VariableType)>) {
+        let text = lm.to_string();
+        let body = match text.find("\ndefine") { Some(i) => text[..i].to_string(), None => text.clone() };
+        (body, lm.domain().iter().map(|(n, d)| (n.clone(), *d.get_type())).collect())
+    }
+    fn range(t: &VariableType) -> (u8, f64, f64) {
+        match t { VariableType::Boolean => (0, 0.0, 1.0), VariableType::IntegerRange(a, b) => (1, *a as f64, *b as f64), VariableType::NonNegativeReal(a, b) => (2, *a, *b), VariableType::Real(a, b) => (3, *a, *b) }
+    }
+    fn same_model(a: &LinearModel, b: &LinearModel) -> Result<(), String> {
+        let ((ta, da), (tb, db)) = (split(a), split(b));
+        if ta != tb { return Err(format!("expected: {} || got: {}", ta, tb)); }
+        if da.len() != db.len() { return Err(format!("different variables: {:?} vs {:?}", da, db)); }
+        for (na, va) in da.iter() {
+            let vb = match db.iter().find(|(nb, _)| nb == na) { Some((_, v)) => v, None => return Err(format!("variable {} is missing after re-compilation", na)) };
+            let (ka, la, ua) = range(va); let (kb, lb, ub) = range(vb);
+            if ka != kb || lb < la - 1e-9 || ub > ua + 1e-9 { return Err(format!("domain of {}: {:?} became {:?}", na, va, vb)); }
+        }
+        Ok(())
+    }
     fn corpus() -> Vec<String> {
         let mut out = vec![];
         let decl = "define\n    a, b, c as Real(-5, 5)";
@@ -25,7 +47,7 @@
     #[test]
     fn search() {
         let (mut cases, mut fails) = (0u64, 0u32);
-        let esc = |s: &str| s.replace('\\', "\\\\").replace('"', "'").replace('\n', "\\n");
+        let esc = |s: &str| s.replace('\\', "\\\\").replace('"', "'").replace('\n', "\\n").replace('\t', " ");
         for src in corpus() {
             let (model, lm) = match (to_model(&src), to_linear(&src)) { (Ok(m), Ok(l)) => (m, l), _ => continue };
             cases += 1;
@@ -38,12 +60,18 @@
             let mtext = model.to_string();
             match to_linear(&mtext) {
                 Err(e) => report("Display for Model", "the rendering of a compiled model is accepted and compiles", &mtext, e),
-                Ok(l2) => if l2.to_string() != want { report("Display for Model", "the rendering of a compiled model compiles to the same linear model", &mtext, format!("expected: {} || got: {}", want, l2.to_string())); },
+                Ok(l2) => if let Err(d) = same_model(&lm, &l2) { report("Display for Model", "the rendering of a compiled model compiles to the same linear model", &mtext, d); },
             }
             // (2) the linear model
             match to_linear(&want) {
                 Err(e) => report("Display for LinearModel", "the rendering of a linear model is accepted and compiles", &want, e),
-                Ok(l3) => if l3.to_string() != want { report("Display for LinearModel", "rendering a linear model, compiling the text and rendering again gives the same text", &want, l3.to_string()); },
+                Ok(l3) => {
+                    if let Err(d) = same_model(&lm, &l3) { report("Display for LinearModel", "the rendering of a linear model compiles to the same linear model", &want, d); }
+                    // fixed point: rendering the recompiled model and compiling that text changes nothing any more
+                    let t3 = l3.to_string();
+                    match to_linear(&t3) { Ok(l4) => if l4.to_string() != t3 { report("Display for LinearModel", "rendering a compiled linear model, compiling the text and rendering again gives the same text", &t3, l4.to_string()); },
+                                           Err(e) => report("Display for LinearModel", "the rendering of a linear model is accepted and compiles", &t3, e) }
+                }
             }
         }
         println!("WITNESS-DONE cases={}", cases);
